@@ -791,7 +791,13 @@ class CompartmentalSystem(Statement):
         )
 
     def __hash__(self):
-        return hash((self._t, self._g))
+        return hash(
+            (
+                self._t,
+                frozenset(self._g.nodes),
+                frozenset(self._g.edges.data('rate')),
+            )
+        )
 
     def to_dict(self) -> dict[str, Any]:
         comps = [comp for comp in self._g.nodes]
